@@ -8,8 +8,9 @@ import (
 
 func TestReplay(t *testing.T) {
 	verif.ReplayMain(map[string]func(){
-		"HarnessReverseAbsent":  HarnessReverseAbsent,
-		"HarnessReverseLoss":    HarnessReverseLoss,
-		"HarnessReverseRouting": HarnessReverseRouting,
+		"HarnessReverseAbsent":    HarnessReverseAbsent,
+		"HarnessReverseAfterGone": HarnessReverseAfterGone,
+		"HarnessReverseLoss":      HarnessReverseLoss,
+		"HarnessReverseRouting":   HarnessReverseRouting,
 	})
 }
